@@ -728,6 +728,13 @@ func (in *instr) selectStmt(s *ast.SelectStmt) []ast.Stmt {
 	n := len(cases)
 	sel := in.newTmp("vsel")
 	var sb strings.Builder
+	// The scheduling point comes FIRST: the channel operands of a select are
+	// evaluated when the select is entered, i.e. in the same step that performs
+	// it (a window between a preceding check and the select stays explorable).
+	kv := in.newTmp("vk")
+	if n > 0 {
+		fmt.Fprintf(&sb, "%s := %s.SelectPoint(%d, %q)\n", kv, schedName, n, in.pos(s))
+	}
 	for _, p := range pre {
 		sb.WriteString(p + "\n")
 	}
@@ -753,9 +760,7 @@ func (in *instr) selectStmt(s *ast.SelectStmt) []ast.Stmt {
 	}
 	fmt.Fprintf(&sb, "%s := -1\n", sel)
 	if n > 0 {
-		kv := in.newTmp("vk")
 		iv := in.newTmp("vi")
-		fmt.Fprintf(&sb, "%s := %s.SelectPoint(%d, %q)\n", kv, schedName, n, in.pos(s))
 		if n > 1 || def == nil {
 			// non-blocking tries in cyclic order from the chosen rotation start
 			fmt.Fprintf(&sb, "for %s := 0; %s < %d && %s < 0; %s++ {\nswitch (%s + %s) %% %d {\n", iv, iv, n, sel, iv, kv, iv, n)
